@@ -164,6 +164,7 @@ pub fn eval_plain(text: &str) -> Out {
     match r {
         Err(_) => {
             out.k.push((format!("lex | {} | ", text_field(&src)), "panic".into()));
+            out.k.push((format!("lexfull | {}", text_field(&src)), "panic".into()));
             out.fails.push(("panic".into(), "PlainEnglish::parse panicked".into(), json!({"frontend": "plaintext", "text": text})));
         }
         Ok(toks) => {
@@ -181,6 +182,17 @@ pub fn eval_plain(text: &str) -> Out {
             }
             if kinds.len() >= 3 {
                 out.nontrivial = Some(op.clone());
+            }
+            // the same token stream against the model with the url / e-mail / hostname lexers
+            // computed by the model itself (no table handed over)
+            out.k.push((format!("lexfull | {}", text_field(&src)), imp.clone()));
+            for t in &toks {
+                match t.kind {
+                    TokenKind::Url => out.counts.push("ext:url".into()),
+                    TokenKind::EmailAddress => out.counts.push("ext:email".into()),
+                    TokenKind::Hostname => out.counts.push("ext:hostname".into()),
+                    _ => {}
+                }
             }
             out.k.push((op, imp));
             check_tokens("plaintext(parser)", text, &src, &toks, true, &mut out);
@@ -213,6 +225,143 @@ pub fn eval_front(id: &str, ilt: bool, wrap: Wrap, text: &str) -> Out {
     out
 }
 
+/// alphabet of the second exhaustive stream (url / e-mail / hostname lexers)
+pub const EXT_ALPHABET: [char; 14] = ['a', '1', '.', '-', '@', ':', '/', '%', '"', ' ', '+', '_', 'A', 'é'];
+
+/// curated inputs for `lex_url`, `lex_email_address`, `lex_hostname_token`
+pub fn ext_corpus() -> Vec<String> {
+    let mut v: Vec<String> = [
+        "http://a.b/c?d=e#f", "ftp://user:pw@host:80/x", "mailto:x@y.z", "a@b", "a.b.c@d.e", "\"quoted\"@x.y", "x@[1.2.3.4]", "a..b@c.d",
+        "http://", "http:///", "http://a@", "://x", "a:b", "www.example.com.", "www.example.com", "-a.b", "a-.b", "a.b-", "a.b.", "a.b..", "a..b", "a.", ".a.b", "a.b",
+        "%zz", "%41", "http://a.b/%zz", "http://a.b/%41", "http://a.b/%4", "http://a.b/%", "http://a.b/x%41y/%4g", "http://u%41@h.c/", "http://u%4@h.c/",
+        "http://abc:80/x", "http://127.0.0.1:80/x", "http://127.0.0.1:80", "http://1:2", "http://12:", "http://a.b:", "http://a.b:/x", "http://u@a.b:80/x", "http://u@12:80/x",
+        "http://u;p?q&r=s@h.c/x", "http://u:p@h.c/x", "http://u:@h.c/x", "http://:p@h.c/x", "http://@h.c/x", "http://u@/x", "http://u@", "http://u@-h", "http://u v@h.c",
+        "http://a.b//c", "http://a.b/c//", "http://a.b/c d", "http://a.b/c\"d", "http://a.b/c/\"d", "http:///x", "http:////", "http://a.b/é", "http://é.b/x", "http://a.b/(x),y!z*'$_+",
+        "h+t.p-1://a", "1://a", "+://a", "ht_tp://a.b", "ht tp://a.b", "http:/a.b", "http:a.b", "http//a.b", ":", "::", "://", ":///", "a:://b", "a://b://c", "x y://a.b",
+        "\"\"@x.y", "\"@x.y", "\"a@x.y", "a\"@x.y", "\"a\"b\"@x.y", "\"a\\\"b\"@x.y", "\"a\\\"@x.y", "\"\\\"@x.y", "\"a b(),:;<>@[]\"@x.y", "\"a\tb\"@x.y", "\"é\"@x.y",
+        "\"a\\\tb\"@x.y", "\"a\\\\\"@x.y", "\"a\\\\b\"@x.y", "\"\\\"\\\"\"@x.y", "\"a\\\"@x.y z", "\"\\\"@x.y", "\"\\a\\b\"@x.y", "\"a\\\n\"@x.y", "\"a\\\"\tb\"@x.y", "\"a\\\t\"b\"@x.y",
+        ".a@b.c", "a.@b.c", "a.b@c", "é@b.c", "a@é.c", "a@b@c.d", "a b@c.d", "a@b c@d", "a@", "@b", "@", "@@", "a@@b", "a@-b", "a@b-", "a@b.", "a@b..c", "a@.b", "a@1", "a@b:80",
+        "!#$%&'*+-/=?^_`{|}~@b.c", "a(b@c.d", "a,b@c.d", "mailhost!username@example.org", "user%example.com@example.org", "name/surname@example.com",
+        "1.2.3.4", "1.2", "1.a", "a.1", "a-b.c-d", "a--b.c", "a_b.c", "A.B", "a.b/c", "a.b:c", "a.b@", "e.g.", "i.e.", "x.y.z.", "x.y.z-", "-.a", "a.-", "a.-.b",
+    ]
+    .iter()
+    .map(|s| s.to_string())
+    .collect();
+    // long hosts / local parts (the 64-character limit of the local part, 300-character hosts)
+    for n in [1usize, 2, 63, 64, 65, 66, 300] {
+        let a = "a".repeat(n);
+        v.push(format!("{}@b.c", a));
+        v.push(format!("\"{}\"@b.c", a));
+        v.push(format!("x@{}.{}", a, a));
+        v.push(format!("{}.{}", a, a));
+        v.push(format!("{}.{}.", a, a));
+        v.push(format!("http://{}.{}/{}", a, a, a));
+        v.push(format!("{}://{}", a, a));
+    }
+    let lbl = "ab-1".repeat(15);
+    v.push(format!("{0}.{0}.{0}.{0}.{0}", lbl));
+    v.push(format!("{0}.{0}.{0}.{0}.{0}.", lbl));
+    v.push(format!("x@{0}.{0}.{0}.{0}.{0}", lbl));
+    v
+}
+
+/// structured random look-alikes: pieces of urls / addresses / hosts glued with hostile separators
+pub fn ext_text(rng: &mut Rng) -> String {
+    const PIECES: &[&str] = &[
+        "http", "https", "ftp", "mailto", "a", "b", "ab", "x1", "1", "12", "80", "127.0.0.1", "example", "com", "www", "user", "pw", "A", "Zz", "é", "ß", "中",
+        "://", ":", "//", "/", "@", ".", "..", "-", "--", "+", "_", "%", "%41", "%4", "%zz", "%aF", "?", "=", "&", "#", ";", "\"", "\\", " ", " ", "\n", "\t",
+        "(", ")", ",", "!", "*", "'", "$", "[", "]", "<", ">", "~", "`", "{", "}", "|", "^",
+    ];
+    const SHAPES: &[&str] = &[
+        "S://H/P", "S://U@H/P", "S://U:W@H:N/P", "S://H:N/P", "S://N.N.N.N:N/P", "U@H", "\"Q\"@H", "U.U@H.H", "H.H.H", "H.H.", "H-.H", "S:P", "S://U@", "S:///P", "U@H U@H", "S://H U@H",
+    ];
+    let mut out = String::new();
+    let nparts = rng.range(1, 3);
+    for i in 0..nparts {
+        if i > 0 {
+            out.push_str(*rng.pick::<&str>(&[" ", " ", ", ", "\n", ".", ". ", ":", "@", "/", ""]));
+        }
+        if rng.chance(1, 3) {
+            // free gluing of pieces
+            let n = rng.range(1, 9);
+            for _ in 0..n {
+                out.push_str(*rng.pick::<&str>(PIECES));
+            }
+        } else {
+            let word = |rng: &mut Rng, extra: &[&str]| -> String {
+                let n = rng.range(0, 3);
+                let mut w = String::new();
+                for _ in 0..n {
+                    if rng.chance(1, 4) && !extra.is_empty() {
+                        w.push_str(*rng.pick::<&str>(extra));
+                    } else {
+                        w.push_str(*rng.pick::<&str>(&["a", "b", "ab", "x1", "1", "12", "A", "example", "www", "com", "e"]));
+                    }
+                }
+                w
+            };
+            for c in rng.pick::<&str>(SHAPES).chars() {
+                match c {
+                    'S' => out.push_str(&word(rng, &["+", "-", ".", "_", " ", "é"])),
+                    'H' => out.push_str(&word(rng, &["-", ".", "_", "é", ":"])),
+                    'U' | 'W' => out.push_str(&word(rng, &[";", "?", "&", "=", "%41", "%4", "%", ".", "..", "!", "$", "é", " ", "\"", "+", "-", "_"])),
+                    'Q' => out.push_str(&word(rng, &[" ", "\\", "\\\"", "\"", "(", ")", ",", ":", ";", "<", ">", "@", "[", "]", "é", "\t"])),
+                    'N' => out.push_str(&word(rng, &["1", "80", "0", "a", ""])),
+                    'P' => out.push_str(&word(rng, &["/", "//", "?", "=", "&", "#", "%41", "%4", "%zz", "%", "(", ")", ",", "!", "*", "'", "$", "_", "+", " ", "\"", "é", "<", "[", "~"])),
+                    other => out.push(other),
+                }
+            }
+        }
+    }
+    if rng.chance(1, 5) {
+        // damage: drop or duplicate one character
+        let mut cs: Vec<char> = out.chars().collect();
+        if !cs.is_empty() {
+            let at = rng.below(cs.len());
+            if rng.chance(1, 2) {
+                cs.remove(at);
+            } else {
+                let c = cs[at];
+                cs.insert(at, c);
+            }
+        }
+        out = cs.into_iter().collect();
+    }
+    out
+}
+
+/// K + O on the three lexers called directly on one slice (see `lexdirect.rs`)
+pub fn eval_ext_slice(text: &str) -> Out {
+    let mut out = Out { k: vec![], fails: vec![], counts: vec![], monitors: vec![], nontrivial: None };
+    let src: Vec<char> = text.chars().collect();
+    let op = format!("extlex | {}", chars_field(&src));
+    let inp = json!({"ext_slice": text});
+    match crate::lexdirect::extlex(&src) {
+        Err(e) => {
+            out.k.push((op, "panic".into()));
+            out.fails.push(("ext-lexer-panic".into(), format!("url / e-mail / hostname lexer panicked on a slice: {}", e), inp));
+        }
+        Ok(r) => {
+            let names = ["lex_url", "lex_email_address", "lex_hostname_token", "lex_hostname"];
+            let mut fired = 0;
+            for (i, x) in r.iter().enumerate() {
+                if let Some(n) = x {
+                    fired += 1;
+                    out.counts.push(format!("direct:{}:some", names[i]));
+                    if *n < 1 || *n > src.len() {
+                        out.fails.push(("ext-lexer-out-of-bounds".into(), format!("{} returned {} on a slice of length {}", names[i], n, src.len()), inp.clone()));
+                    }
+                }
+            }
+            if fired >= 2 {
+                out.nontrivial = Some(op.clone());
+            }
+            out.k.push((op, crate::lexdirect::extlex_show(&r)));
+        }
+    }
+    out
+}
+
 fn merge(sess: &mut Session, o: Out) {
     let mut case = None;
     for (op, imp) in &o.k {
@@ -241,7 +390,9 @@ pub fn run(ctx: &Ctx) {
     if let Some(v) = replay_input(ctx) {
         let text = v["text"].as_str().unwrap_or("").to_string();
         let front = v["frontend"].as_str().unwrap_or("plaintext").to_string();
-        let o = if front.starts_with("plaintext") {
+        let o = if let Some(sl) = v["ext_slice"].as_str() {
+            eval_ext_slice(sl)
+        } else if front.starts_with("plaintext") {
             eval_plain(&text)
         } else {
             let id = front.split('+').next().unwrap().to_string();
@@ -268,6 +419,14 @@ pub fn run(ctx: &Ctx) {
         plain_inputs.push(s.to_string());
         plain_inputs.push(format!("a {} b", s));
     }
+    // 1b. url / e-mail / hostname lexers: curated corner cases (each alone, inside a sentence,
+    // and followed by a later `@` / `:` since the lexers scan the whole rest of the text)
+    for s in ext_corpus() {
+        plain_inputs.push(format!("see {} now", s));
+        plain_inputs.push(format!("{} then x@y.z or b://c", s));
+        plain_inputs.push(format!("({}).", s));
+        plain_inputs.push(s);
+    }
     // 2. exhaustive small scope: all strings of length ≤ 4 (quick) / ≤ 5 (thorough) over a hostile alphabet
     let alpha: Vec<char> = vec!['a', '1', '.', '\'', ' ', '\t', '\n', 's', '0', 'x', '[', ']', '-', 'e'];
     let maxlen = if ctx.tier == Tier::Thorough { 5 } else { 4 };
@@ -284,7 +443,27 @@ pub fn run(ctx: &Ctx) {
             plain_inputs.push(s);
         }
     }
+    // 2b. second exhaustive scope, aimed at the url / e-mail / hostname lexers
+    let alpha2: Vec<char> = EXT_ALPHABET.to_vec();
+    let n2 = alpha2.len();
+    for len in 1..=maxlen {
+        let total = n2.pow(len as u32);
+        for code in 0..total {
+            let mut c = code;
+            let mut s = String::new();
+            for _ in 0..len {
+                s.push(alpha2[c % n2]);
+                c /= n2;
+            }
+            plain_inputs.push(s);
+        }
+    }
     let n_exh = plain_inputs.len();
+    // 3b. structured random url / e-mail / hostname look-alikes
+    let next = if ctx.tier == Tier::Thorough { 40000 } else { 6000 };
+    for _ in 0..next {
+        plain_inputs.push(ext_text(&mut rng));
+    }
     // 3. structured random + malformed
     let nrand = if ctx.tier == Tier::Thorough { 40000 } else { 6000 };
     for _ in 0..nrand {
@@ -294,6 +473,43 @@ pub fn run(ctx: &Ctx) {
     for (i, o) in outs.into_iter().enumerate() {
         if i >= n_exh && i < n_exh + 3 {
             sess.sample(json!({"plain_text": trunc(&plain_inputs[i], 200)}));
+        }
+        merge(&mut sess, o);
+    }
+    // --- K + O on lex_url / lex_email_address / lex_hostname_token called directly -------
+    // (arbitrary slices: also those that an earlier lexer of lex_token would take first)
+    let mut slices: Vec<String> = vec![];
+    for s in ext_corpus() {
+        let cs: Vec<char> = s.chars().collect();
+        for i in 0..cs.len() {
+            if i < 12 || cs.len() - i < 12 {
+                slices.push(cs[i..].iter().collect());
+            }
+        }
+        slices.push(format!("{} x@y.z b://c", s));
+    }
+    for len in 1..=maxlen {
+        let total = n2.pow(len as u32);
+        for code in 0..total {
+            let mut c = code;
+            let mut s = String::new();
+            for _ in 0..len {
+                s.push(alpha2[c % n2]);
+                c /= n2;
+            }
+            slices.push(s);
+        }
+    }
+    let nslice = if ctx.tier == Tier::Thorough { 60000 } else { 10000 };
+    for _ in 0..nslice {
+        let t: Vec<char> = ext_text(&mut rng).chars().collect();
+        let at = if rng.chance(1, 2) { 0 } else { rng.below(t.len() + 1) };
+        slices.push(t[at..].iter().collect());
+    }
+    let outs = par_map(slices.len(), 16, |i| eval_ext_slice(&slices[i]));
+    for (i, o) in outs.into_iter().enumerate() {
+        if i % 9973 == 0 {
+            sess.sample(json!({"ext_slice": trunc(&slices[i], 120)}));
         }
         merge(&mut sess, o);
     }
@@ -336,8 +552,8 @@ pub fn run(ctx: &Ctx) {
         merge(&mut sess, o);
     }
     sess.finish(
-        "K: PlainEnglish::parse vs the Lean lexer model on (1) corpus of lexer corner cases, (2) ALL strings of length ≤4 (quick) / ≤5 (thorough) over the alphabet {a,1,.,',space,tab,newline,s,0,x,[,],-,e}, (3) structured random texts (rule-test sentences mutated by truncation, spice splices, delimiter drops, long words, glued digits) and random code points. O: the property's clauses (bounds, order, disjointness, zero-width only structural, plain tiling, per-kind shape, quote twins) on the final Document tokens of plain English and of every language id of the server's table (prose embedded in language-appropriate syntax, plus the repo's fixtures), also wrapped in CollapseIdentifiers / IsolateEnglish. Non-trivial = a plain text whose tokens have ≥3 distinct kinds; distinct by op line.",
+        "K: PlainEnglish::parse vs the Lean lexer model, every text twice: op `lex` (url/e-mail/hostname tokens handed to the model as a table) and op `lexfull` (those three lexers computed by the model, nothing handed over), on (1) corpus of lexer corner cases incl. curated url / e-mail / hostname corner cases alone and embedded, (2) ALL strings of length ≤4 (quick) / ≤5 (thorough) over the alphabet {a,1,.,',space,tab,newline,s,0,x,[,],-,e} and over the alphabet {a,1,.,-,@,:,/,%,\",space,+,_,A,é}, (3) structured random texts (rule-test sentences mutated by truncation, spice splices, delimiter drops, long words, glued digits), random code points, and random url / address / host look-alikes; op `extlex`: lex_url / lex_email_address / lex_hostname_token / lex_hostname compiled from /repo and called directly on arbitrary slices (suffixes of the curated cases, ALL strings of length ≤4/5 over the second alphabet, random look-alikes), result lengths against the model and against 1 ≤ n ≤ slice length. O: the property's clauses (bounds, order, disjointness, zero-width only structural, plain tiling, per-kind shape, quote twins) on the final Document tokens of plain English and of every language id of the server's table (prose embedded in language-appropriate syntax, plus the repo's fixtures), also wrapped in CollapseIdentifiers / IsolateEnglish. Non-trivial = a plain text whose tokens have ≥3 distinct kinds; distinct by op line.",
         true,
-        json!({"exhaustive_scope": format!("all strings of length ≤{} over 14 characters", maxlen), "language_ids": ids}),
+        json!({"exhaustive_scope": format!("all strings of length ≤{} over each of two 14-character alphabets", maxlen), "language_ids": ids}),
     );
 }
